@@ -75,6 +75,22 @@ TABLE = {
             "trajectories plus seeded random ones are executed through GoalRegion.is_reached / PlanningProblem.goal_reached "
             "and TLC validates verdict, index and totality.",
             "TLC, the pi/12 angle grid (k*pi/12 as float), lattice geometry"),
+    "C13": ("BenchmarkId.tla / MC_BenchmarkId.tla / Trace_BenchmarkId.tla",
+            "Ids are token sequences; the printer, the id grammar (NFA), a deterministic parser and the constructor's "
+            "normalisation are TLA+ operators; TLC checks Accepts(Grammar, Print(id)), Parse(Print(id)) = Normalize(id), "
+            "Print(Parse(Print(id))) = Print(id) for every valid field combination in scope and the same three laws for "
+            "solution ids (all lists of <= 2, thorough <= 3, supported (model, type, cost) triples). Every enumerated id and "
+            "seeded random ones (library country table, long names, big numbers) are printed / parsed / compared by the real "
+            "code (also through the solution writer and reader) and TLC validates tokens, parsed fields, equality and reprint.",
+            "TLC, the tokeniser projection of real strings"),
+    "C15": ("Writers.tla / MC_Writers.tla / Trace_Writers.tla",
+            "TLC explores all interleavings of constructing writers (XML / protobuf, two precisions) and writing with them "
+            "(both write methods, ALWAYS / SKIP, two paths) on a model with the process-global precision and the accumulating "
+            "XML tree and checks files'[path] = F(writer, kind); both deviation constants reproduce the shipped defects. A "
+            "transition cover and seeded random histories (5 writers, precisions 1..12) run on real CommonRoadFileWriter "
+            "objects; every written file is projected (decimals of a probe number, element multiplicity, planning problems, "
+            "date-stripped content id, read-back) and validated by TLC.",
+            "TLC, projection of files (lxml / protobuf parse), SHA-1 content identity with the date removed"),
 }
 
 PENDING_REASON = "check not built yet in this round (specification module planned in DESIGN.md section 4); not claimed"
